@@ -637,6 +637,11 @@ func (t *Terminfo) TPuts(w io.Writer, s string) {
 			return
 		}
 		val := s[:end]
+		if !validPadding(val) {
+			// not a padding specification, emit it unadulterated
+			_, _ = io.WriteString(w, "$<")
+			continue
+		}
 		s = s[end+1:]
 		padus := 0
 		unit := time.Millisecond
@@ -668,6 +673,37 @@ func (t *Terminfo) TPuts(w io.Writer, s string) {
 			time.Sleep(unit * time.Duration(padus))
 		}
 	}
+}
+
+// validPadding reports whether val (the text between "$<" and ">") is a
+// padding specification: a number with at most one decimal place, optionally
+// followed by the '*' and '/' flags.
+func validPadding(val string) bool {
+	i := 0
+	for i < len(val) && val[i] >= '0' && val[i] <= '9' {
+		i++
+	}
+	if i == 0 {
+		return false
+	}
+	if i < len(val) && val[i] == '.' {
+		i++
+		if i < len(val) && val[i] >= '0' && val[i] <= '9' {
+			i++
+		}
+	}
+	star, slash := false, false
+	for ; i < len(val); i++ {
+		switch {
+		case val[i] == '*' && !star:
+			star = true
+		case val[i] == '/' && !slash:
+			slash = true
+		default:
+			return false
+		}
+	}
+	return true
 }
 
 // TGoto returns a string suitable for addressing the cursor at the given
